@@ -334,6 +334,9 @@ class SecopClient(ProxyClient):
         self.uri = uri
         self.nodename = uri
         self._lock = RLock()
+        # protects the test and modification of active_requests and pending
+        # (not self._lock: connect() holds that while waiting for a reply)
+        self._request_lock = RLock()
         self._shutdown = Event()
         self.cleanup = []
         self.register_callback(None, self.handleError)
@@ -418,11 +421,16 @@ class SecopClient(ProxyClient):
                 key = (reply_action, request[1])  # action and identifier
             else:  # allow experimental unknown requests, but only one at a time
                 key = None
-            if key in self.active_requests:
-                # store to requeue after the next reply was received
-                self.pending.put(entry)
-            else:
-                self.active_requests[key] = entry
+            with self._request_lock:
+                # the rx thread must not release <key> and requeue the
+                # pending requests between the test and parking the entry
+                parked = key in self.active_requests
+                if parked:
+                    # store to requeue after the next reply was received
+                    self.pending.put(entry)
+                else:
+                    self.active_requests[key] = entry
+            if not parked:
                 line = encode_msg_frame(*request)
                 self.log.debug('TX: %r', line)
                 self.io.send(line)
@@ -484,29 +492,34 @@ class SecopClient(ProxyClient):
                     except Exception:
                         pass
                     continue
-                try:
-                    key = action, ident
-                    entry = self.active_requests.pop(key)
-                except KeyError:
-                    if action.startswith(ERRORPREFIX):
-                        try:
-                            key = REQUEST2REPLY[action[len(ERRORPREFIX):]], ident
-                        except KeyError:
+                requeue = []
+                with self._request_lock:
+                    try:
+                        key = action, ident
+                        entry = self.active_requests.pop(key)
+                    except KeyError:
+                        if action.startswith(ERRORPREFIX):
+                            try:
+                                key = REQUEST2REPLY[action[len(ERRORPREFIX):]], ident
+                            except KeyError:
+                                key = None
+                            entry = self.active_requests.pop(key, None)
+                        else:
+                            # this may be a response to the last unknown request
                             key = None
-                        entry = self.active_requests.pop(key, None)
-                    else:
-                        # this may be a response to the last unknown request
-                        key = None
-                        entry = self.active_requests.pop(key, None)
+                            entry = self.active_requests.pop(key, None)
+                    if entry is not None:
+                        while not self.pending.empty():
+                            requeue.append(self.pending.get())
                 if entry is None:
                     self._unhandled_message(action, ident, data)
                     continue
                 entry[2] = action, ident, data
                 entry[1].set()  # trigger event
-                while not self.pending.empty():
+                for parked in requeue:
                     # let the TX thread sort out which entry to treat
                     # this may have bad performance, but happens rarely
-                    self.txq.put(self.pending.get())
+                    self.txq.put(parked)
         except ConnectionClosed:
             pass
         except Exception as e:
